@@ -11,7 +11,7 @@ if [ "${1:-}" = "-j" ]; then J=$2; shift 2; fi
 names=("$@")
 if [ ${#names[@]} -eq 0 ]; then
 	for d in "$V"/seeded/*/; do
-		grep -q '"superseded"' "$d/meta.json" 2>/dev/null && continue
+		grep -q '"superseded"\|"not_claimed"' "$d/meta.json" 2>/dev/null && continue
 		names+=("$(basename "$d")")
 	done
 fi
